@@ -1330,6 +1330,8 @@ namespace awkward {
       std::sort(these_keys.begin(), these_keys.end());
 
       for (auto array : headless) {
+        util::merge_parameters(parameters, array.get()->parameters());
+
         if (VirtualArray* raw = dynamic_cast<VirtualArray*>(array.get())) {
           array = raw->array();
         }
